@@ -105,7 +105,9 @@ impl Quil for ArithmeticOperand {
     ) -> crate::quil::ToQuilResult<()> {
         match &self {
             ArithmeticOperand::LiteralInteger(value) => write!(f, "{value}").map_err(Into::into),
-            ArithmeticOperand::LiteralReal(value) => write!(f, "{value}").map_err(Into::into),
+            // `{:?}` always writes a decimal point or an exponent (`1.0`, `1e300`), so that the text
+            // is read back as a real literal rather than as an integer literal.
+            ArithmeticOperand::LiteralReal(value) => write!(f, "{value:?}").map_err(Into::into),
             ArithmeticOperand::MemoryReference(value) => value.write(f, fall_back_to_debug),
         }
     }
@@ -488,7 +490,9 @@ impl Quil for ComparisonOperand {
     ) -> crate::quil::ToQuilResult<()> {
         match &self {
             ComparisonOperand::LiteralInteger(value) => write!(f, "{value}").map_err(Into::into),
-            ComparisonOperand::LiteralReal(value) => write!(f, "{value}").map_err(Into::into),
+            // `{:?}` always writes a decimal point or an exponent (`1.0`, `1e300`), so that the text
+            // is read back as a real literal rather than as an integer literal.
+            ComparisonOperand::LiteralReal(value) => write!(f, "{value:?}").map_err(Into::into),
             ComparisonOperand::MemoryReference(value) => value.write(f, fall_back_to_debug),
         }
     }
